@@ -21,6 +21,7 @@ open PcbV
     vpwh r0..r3 (ok w,h) | vpbounds abs r0..r3 (ok 4 ints) | vpconv abs r0..r3 x y | vpcontains abs r0..r3 x y |
     vpmid abs r0..r3 | vpcut abs r0..r3 maxW maxH x y        (abs = 0/1)     GraphicsViewPort
     srec nameLen | arec nameLen ndims                                         record sizes
+    rfeof recpos reclen lof (ok 0/1) | rfseek pos reclen (ok offset,recpos) | rfput recpos reclen   RandomFile
     supported2                      flags of the functions above, in the order of `flags2`
 -/
 
@@ -46,7 +47,8 @@ def flags2 : List Bool := [inegCore_supported, iaddCore_supported, igtCore_suppo
   vpBounds0_supported && vpBounds1_supported && vpBounds2_supported && vpBounds3_supported,
   vpConvert0_supported && vpConvert1_supported, vpContains_supported,
   vpMid0_supported && vpMid1_supported, vpCutoff0_supported && vpCutoff1_supported,
-  scalarRecordSize_supported, arrayRecordSize_supported]
+  scalarRecordSize_supported, arrayRecordSize_supported,
+  rfEof_supported, rfSeekOffset_supported && rfSeekRecpos_supported, rfPutOffset_supported]
 
 open PcbV.Gen.Translated in
 /-- the ops added with the second batch of translated functions: all arguments are ints -/
@@ -82,6 +84,9 @@ def handle2 (op : String) (a : List Int) : Option String :=
     some (showL [vpCutoff0 b r0 r1 r2 r3 mw mh x y, vpCutoff1 b r0 r1 r2 r3 mw mh x y])
   | "srec", [n] => some (showI (scalarRecordSize n))
   | "arec", [n, d] => some (showI (arrayRecordSize n d))
+  | "rfeof", [rp, rl, lf] => some (showB (rfEof rp rl lf))
+  | "rfseek", [p, rl] => some (showL [rfSeekOffset p rl, rfSeekRecpos p])
+  | "rfput", [rp, rl] => some (showI (rfPutOffset rp rl))
   | _, _ => none
 
 def handle1 : List String → String
